@@ -165,8 +165,8 @@ func init() {
 	hasPrefix := func(fr *Frame, in ssa.Instruction, st *State, args []Value, rt types.Type) Value {
 		p := fr.p
 		s, pre := sTerm(args[0]), sTerm(args[1])
-		B.DeclareFun("str.prefixof", []string{SStr, SStr}, SBool)
-		r := B.App("str.prefixof", SBool, pre, s)
+		B.DeclareFun("gs.prefixof", []string{SStr, SStr}, SBool)
+		r := B.App("gs.prefixof", SBool, pre, s)
 		lp := strLen(pre)
 		p.assume(True(), Implies(r, And(BVSle(lp, strLen(s)), Eq(p.strSub(True(), s, BVInt(0, 64), lp), pre))))
 		p.assume(True(), Implies(And(BVSle(lp, strLen(s)), Eq(p.strSub(True(), s, BVInt(0, 64), lp), pre)), r))
@@ -177,8 +177,8 @@ func init() {
 	hasSuffix := func(fr *Frame, in ssa.Instruction, st *State, args []Value, rt types.Type) Value {
 		p := fr.p
 		s, suf := sTerm(args[0]), sTerm(args[1])
-		B.DeclareFun("str.suffixof", []string{SStr, SStr}, SBool)
-		r := B.App("str.suffixof", SBool, suf, s)
+		B.DeclareFun("gs.suffixof", []string{SStr, SStr}, SBool)
+		r := B.App("gs.suffixof", SBool, suf, s)
 		ls, n := strLen(suf), strLen(s)
 		tail := p.strSub(True(), s, BVSub(n, ls), n)
 		p.assume(True(), Eq(r, And(BVSle(ls, n), Eq(tail, suf))))
@@ -213,7 +213,7 @@ func init() {
 		return func(fr *Frame, in ssa.Instruction, st *State, args []Value, rt types.Type) Value {
 			p := fr.p
 			s, sep := sTerm(args[0]), sTerm(args[1])
-			fn := B.DeclareFun("str."+name, []string{SStr, SStr}, SBV(64))
+			fn := B.DeclareFun("gs."+name, []string{SStr, SStr}, SBV(64))
 			r := B.App(fn, SBV(64), s, sep)
 			m1 := BVInt(-1, 64)
 			p.assume(True(), Or(Eq(r, m1), And(BVSle(BVInt(0, 64), r), BVSle(BVAdd(r, strLen(sep)), strLen(s)),
@@ -227,7 +227,7 @@ func init() {
 	reg("strings.IndexByte", "r==-1 || (0<=r<len(s) && s[r]==c)", func(fr *Frame, in ssa.Instruction, st *State, args []Value, rt types.Type) Value {
 		p := fr.p
 		s, c := sTerm(args[0]), sTerm(args[1])
-		fn := B.DeclareFun("str.indexbyte", []string{SStr, SBV(8)}, SBV(64))
+		fn := B.DeclareFun("gs.indexbyte", []string{SStr, SBV(8)}, SBV(64))
 		r := B.App(fn, SBV(64), s, c)
 		p.assume(True(), Or(Eq(r, BVInt(-1, 64)), And(BVSle(BVInt(0, 64), r), BVSlt(r, strLen(s)), Eq(strAt(s, r), c))))
 		return Scalar{r}
@@ -261,6 +261,34 @@ func init() {
 		return SliceV{Ref: b.Ref, Off: BVAdd(b.Off, i), Len: BVSub(j, i), Cap: BVSub(b.Cap, i), Elem: b.Elem}
 	})
 	libEffTable["bytes.TrimSpace"] = noEffect
+	reg("bytes.IndexByte", "r==-1 (c does not occur) || 0<=r<len(b) && b[r]==c && no earlier occurrence", func(fr *Frame, in ssa.Instruction, st *State, args []Value, rt types.Type) Value {
+		p := fr.p
+		b, c := args[0].(SliceV), sTerm(args[1])
+		r := B.Fresh("bytes.indexbyte", SBV(64))
+		a := Select(p.bytesCell(st), b.Ref)
+		k := B.BoundVar("k", SBV(64))
+		z := BVInt(0, 64)
+		found := And(BVSle(z, r), BVSlt(r, b.Len), Eq(Select(a, BVAdd(b.Off, r)), c),
+			Forall([]*Term{k}, Implies(And(BVSle(z, k), BVSlt(k, r)), Neq(Select(a, BVAdd(b.Off, k)), c))))
+		none := And(Eq(r, BVInt(-1, 64)), Forall([]*Term{k}, Implies(And(BVSle(z, k), BVSlt(k, b.Len)), Neq(Select(a, BVAdd(b.Off, k)), c))))
+		p.assume(st.Guard, Or(found, none))
+		return Scalar{r}
+	})
+	libEffTable["bytes.IndexByte"] = noEffect
+	reg("strings.Split", "returns a fresh slice of at least one string (sep != \"\"); contents uninterpreted", func(fr *Frame, in ssa.Instruction, st *State, args []Value, rt types.Type) Value {
+		p := fr.p
+		ref := p.allocRef(st)
+		n := B.Fresh("split.len", SBV(64))
+		p.assume(True(), And(BVSle(BVInt(1, 64), n), BVSle(n, BVAdd(strLen(sTerm(args[0])), BVInt(1, 64)))))
+		// element strings are well-formed
+		et := rt.Underlying().(*types.Slice).Elem()
+		return SliceV{Ref: ref, Off: BVInt(0, 64), Len: n, Cap: n, Elem: et}
+	})
+	libEffTable["strings.Split"] = func(e *effects) { e.alloc = true }
+	reg("strings.Join", "returns a string (content uninterpreted)", func(fr *Frame, in ssa.Instruction, st *State, args []Value, rt types.Type) Value {
+		return freshStr(fr.p, st, "join")
+	})
+	libEffTable["strings.Join"] = noEffect
 	for _, k := range []string{"strings.HasPrefix", "strings.HasSuffix", "strings.Contains", "strings.TrimSpace", "strings.TrimSuffix", "strings.TrimPrefix", "strings.Index", "strings.LastIndex", "strings.IndexByte", "strings.Cut"} {
 		libEffTable[k] = noEffect
 	}
@@ -298,8 +326,8 @@ func (p *Proof) envStep(st *State, arr *Term) {
 }
 
 func strContains(p *Proof, s, sub *Term) *Term {
-	B.DeclareFun("str.contains", []string{SStr, SStr}, SBool)
-	r := B.App("str.contains", SBool, s, sub)
+	B.DeclareFun("gs.contains", []string{SStr, SStr}, SBool)
+	r := B.App("gs.contains", SBool, s, sub)
 	if !p.strSeen[r.id] {
 		p.strSeen[r.id] = true
 		p.assume(True(), Implies(r, BVSle(strLen(sub), strLen(s))))
